@@ -36,29 +36,32 @@ def count_cases():
     ho, wo = conv_out(n, k1, s, d, same), conv_out(m, k2, s, d, same)
     for cname in ("Conv2D", "QConv2D"):
       L = stub_class(cname)()
+      L.dilation_rate, L.strides, L.kernel_size, L.filters, L.padding, L.groups = (S(d), S(d)), (S(s), S(s)), (S(k1), S(k2)), S(co), "same" if same else "valid", 1
       L.compute_output_shape = lambda ish, ho=ho, wo=wo: (None, S(ho), S(wo), S(co))
       L.get_weights = lambda: [W((S(k1), S(k2), S(ci), S(co)))]
       cases.append((cname, same, L, (None, S(n), S(m), S(ci)), ho * wo * co * (k1 * k2 * ci), "output elements x (kh*kw*cin) taps"))
     for cname in ("DepthwiseConv2D", "QDepthwiseConv2D"):
       L = stub_class(cname)()
+      L.dilation_rate, L.strides, L.kernel_size, L.depth_multiplier, L.padding = (S(d), S(d)), (S(s), S(s)), (S(k1), S(k2)), 1, "same" if same else "valid"
       L.compute_output_shape = lambda ish, ho=ho, wo=wo: (None, S(ho), S(wo), S(ci))
       L.get_weights = lambda: [W((S(k1), S(k2), S(ci), 1))]
       cases.append((cname, same, L, (None, S(n), S(m), S(ci)), ho * wo * ci * (k1 * k2), "output elements x (kh*kw) taps, depth multiplier 1"))
     to = conv_out(n, k1, s, d, same)
     for cname in ("Conv1D", "QConv1D"):
       L = stub_class(cname)()
+      L.dilation_rate, L.strides, L.kernel_size, L.filters, L.padding = (S(d),), (S(s),), (S(k1),), S(co), "same" if same else "valid"
       L.compute_output_shape = lambda ish, to=to: (None, S(to), S(co))
       L.get_weights = lambda: [W((S(k1), S(ci), S(co)))]
       cases.append((cname, same, L, (None, S(n), S(ci)), to * co * (k1 * ci), "output elements x (k*cin) taps"))
     # average pooling (pool = stride = k): adds per output element = pool area
     po, qo = conv_out(n, k1, k1, 1, same), conv_out(m, k2, k2, 1, same)
     L = stub_class("AveragePooling2D")()
-    L.pool_size = (S(k1), S(k2))
+    L.pool_size, L.strides, L.padding = (S(k1), S(k2)), (S(k1), S(k2)), "same" if same else "valid"
     L.compute_output_shape = lambda ish, po=po, qo=qo: (None, S(po), S(qo), S(ci))
     cases.append(("AveragePooling2D", same, L, (None, S(n), S(m), S(ci)), po * qo * ci * (k1 * k2), "output elements x pool area"))
   for cname in ("Dense", "QDense"):
     L = stub_class(cname)()
-    L.name = "dense"
+    L.name, L.units, L.use_bias = "dense", S(co), True
     L.compute_output_shape = lambda ish: (None, S(co))
     cases.append((cname, None, L, (None, S(ci)), ci * co, "inputs x outputs"))
   for cname in ("GlobalAveragePooling2D", "QGlobalAveragePooling2D"):
@@ -130,16 +133,19 @@ def replay_count(rep):
   L.name = cname
   if "Conv2D" in cname and "Depthwise" not in cname:
     ho, wo = co_(n, k1, s, d), co_(w, k2, s, d)
+    L.dilation_rate, L.strides, L.kernel_size, L.filters, L.padding, L.groups = (d, d), (s, s), (k1, k2), co, "same" if same else "valid", 1
     L.compute_output_shape = lambda ish: (None, ho, wo, co)
     L.get_weights = lambda: [W((k1, k2, ci, co))]
     ish, want = (None, n, w, ci), ho * wo * co * k1 * k2 * ci
   elif "Depthwise" in cname:
     ho, wo = co_(n, k1, s, d), co_(w, k2, s, d)
+    L.dilation_rate, L.strides, L.kernel_size, L.depth_multiplier, L.padding = (d, d), (s, s), (k1, k2), 1, "same" if same else "valid"
     L.compute_output_shape = lambda ish: (None, ho, wo, ci)
     L.get_weights = lambda: [W((k1, k2, ci, 1))]
     ish, want = (None, n, w, ci), ho * wo * ci * k1 * k2
   elif "Conv1D" in cname:
     to = co_(n, k1, s, d)
+    L.dilation_rate, L.strides, L.kernel_size, L.filters, L.padding = (d,), (s,), (k1,), co, "same" if same else "valid"
     L.compute_output_shape = lambda ish: (None, to, co)
     L.get_weights = lambda: [W((k1, ci, co))]
     ish, want = (None, n, ci), to * co * k1 * ci
